@@ -8,6 +8,7 @@ import (
 	"os/exec"
 	"sort"
 	"strconv"
+	"strings"
 	"sync"
 	"time"
 )
@@ -148,7 +149,8 @@ func sfSpawn(dir string, tag string, batch []json.RawMessage, seed int64) sfBatc
 func sfDeathEvents(raw json.RawMessage, stderr string, confirmed bool) []json.RawMessage {
 	var sc sfScenario
 	json.Unmarshal(raw, &sc)
-	kind, frame := PanicSig(stderr)
+	kind, _ := PanicSig(stderr)
+	frame := sfFrame(stderr)
 	if sc.Cfg == nil {
 		sc.Cfg = map[string]string{}
 	}
@@ -160,6 +162,19 @@ func sfDeathEvents(raw json.RawMessage, stderr string, confirmed bool) []json.Ra
 	e, _ := json.Marshal(M{"ev": "end", "sc": sc.Sc, "died": true, "confirmed": confirmed, "panic": false, "second": false,
 		"bystander": false, "done": 0, "crash": kind, "frame": frame, "note": ""})
 	return []json.RawMessage{r, e}
+}
+
+// sfFrame is the innermost lal function of a crash dump, with its receiver (PanicSig cuts at the first "(").
+func sfFrame(stderr string) string {
+	for _, l := range strings.Split(stderr, "\n") {
+		if strings.HasPrefix(l, "github.com/q191201771/lal/pkg/") {
+			if i := strings.LastIndex(l, "("); i > 0 {
+				l = l[:i]
+			}
+			return strings.TrimPrefix(l, "github.com/q191201771/lal/pkg/")
+		}
+	}
+	return ""
 }
 
 func surfacesDriver(env *Env) error {
